@@ -93,10 +93,16 @@ def make_exhaustive_source(info: ExhaustiveInfo, apply_validity=True):
         if not symbols:
             return np.array([])
         if apply_validity:
+            lb_checks = _loop_bound_checks(job)
+            own_groups = _loop_count_groups(job)
+            if own_groups is not None:
+                max_loop_check_groups = own_groups      # limits restated from the mapper knobs, not taken from the caller
             fns = []
             for o in objectives:
                 if o.max_value is None and o.min_value is None:
                     continue
+                if lb_checks is not None and str(o.name).startswith("loop_bounds_"):
+                    continue        # loop bounds are judged independently below, not by accelforge's formulas
                 f = sympy.lambdify(list(symbols), o.formula, "math")
                 fns.append((o, f))
             valid = []
@@ -105,14 +111,28 @@ def make_exhaustive_source(info: ExhaustiveInfo, apply_validity=True):
                 ok = True
                 for o, f in fns:
                     v = float(f(*args))
-                    if o.max_value is not None and abs(v - o.max_value) <= 1e-6 * abs(o.max_value):
-                        info.exact_fit += 1
+                    if (o.max_value is not None and str(o.name).startswith("usage<SEP>memory")
+                            and abs(v - o.max_value) <= 1e-6 * abs(o.max_value)):
+                        info.exact_fit += 1     # a MEMORY filled exactly (known float32 finding); fanouts are exact
                     if o.max_value is not None:
                         if (v > o.max_value * (1 + 1e-9)) if o.inclusive else (v >= o.max_value):
                             ok = False
                     if o.min_value is not None and not o.try_best_if_none_reaches_min:
                         if (v < o.min_value * (1 - 1e-9)) if o.inclusive else (v <= o.min_value):
                             ok = False
+                if ok and lb_checks:
+                    for chk in lb_checks:
+                        trips = []
+                        for own, outer in chk["targets"]:
+                            ov = outer if isinstance(outer, int) else r[outer]
+                            wv = own if isinstance(own, int) else r[own]
+                            trips.append(ov / wv)
+                        vals = [math.prod(trips)] if chk["product"] else trips
+                        op, lim = chk["op"], chk["value"]
+                        for v in vals:
+                            good = {"==": v == lim, "<=": v <= lim, ">=": v >= lim, "<": v < lim, ">": v > lim}[op]
+                            if not good:
+                                ok = False
                 if not ok:
                     continue
                 # loop-count limits: a loop exists iff its tile shape differs from the tile just outside it
@@ -145,6 +165,60 @@ def make_exhaustive_source(info: ExhaustiveInfo, apply_validity=True):
         return arr
 
     return source
+
+
+def _loop_count_groups(job):
+    """(limit, [tile shapes]) groups restated from the mapper knobs and the template itself: all fused
+    loops <= max_fused_loops; fused loops of one rank variable <= max_fused_loops_per_rank_variable;
+    spatial loops of one (fanout dimension, component) <= max_loops_per_spatial_dimension."""
+    try:
+        from accelforge.frontend.mapping import Loop, Spatial
+
+        mp = job.spec_one_einsum.mapper
+        fused = [n for n in job.mapping.nodes if isinstance(n, Loop) and n._fused]
+        groups = []
+        if fused:
+            groups.append((mp.max_fused_loops, [n.tile_shape for n in fused]))
+            by_rv = {}
+            for n in fused:
+                by_rv.setdefault(n.rank_variable, []).append(n.tile_shape)
+            groups += [(mp.max_fused_loops_per_rank_variable, v) for v in by_rv.values()]
+        by_dim = {}
+        for n in job.mapping.nodes:
+            if isinstance(n, Spatial):
+                by_dim.setdefault((n.name, n.component), []).append(n.tile_shape)
+        groups += [(mp.max_loops_per_spatial_dimension, v) for v in by_dim.values()]
+        return [(lim, [int(g) if getattr(g, "is_Integer", False) else g for g in grp]) for lim, grp in groups]
+    except Exception:  # noqa: BLE001
+        return None
+
+
+def _loop_bound_checks(job):
+    """The architecture's loop_bounds comparisons attached to this template, restated on the mapping's
+    structure: the trip count of a loop is the tile shape of the nearest enclosing loop over the same rank
+    variable (or the rank bound) divided by its own tile shape.  -> list of checks, or None if unavailable."""
+    try:
+        from accelforge.frontend.mapping import Loop
+
+        loops = [n for n in job.mapping.nodes if isinstance(n, Loop)]
+        out = []
+        for c in job.constraints.loop_bounds_constraints:
+            op = c.constraint.operator
+            product = "product" in op
+            op = op.replace("product", "")
+            targets = []
+            for i in c._target_loop_indices:
+                n = loops[i]
+                outer = job.rank_variable_bounds[n.rank_variable]
+                for l in loops[:i]:
+                    if l.rank_variable == n.rank_variable:
+                        outer = l.tile_shape
+                targets.append((n.tile_shape, outer if not hasattr(outer, "is_Integer") or not outer.is_Integer else int(outer)))
+            if targets:
+                out.append({"op": op, "value": c.constraint.value, "product": product, "targets": targets})
+        return out
+    except Exception:  # noqa: BLE001  (internal layout changed: fall back to accelforge's own objectives)
+        return None
 
 
 @contextlib.contextmanager
